@@ -81,14 +81,25 @@ def enumerate_strings():
                     np.einsum(s, np.zeros(_shape(l)), np.zeros(_shape(r)))
                 except Exception:  # noqa: BLE001
                     continue
-                try:
-                    D._get_transposed_subscripts(s)
-                    tr.append(s)
-                except ValueError:
-                    acc.append(s)
-                except Exception:  # noqa: BLE001
-                    acc.append(s)
+                (tr if _transposed(D, s) is not None else acc).append(s)
     return tr, acc
+
+
+def _transposed(D, s):
+    """The rewritten subscripts if the library transposes `s`, None if it rejects it (any error).  Uses the rewriting routine named in
+    the property when it exists; if it has been renamed, falls back on building the operator and taking `.T`."""
+    f = getattr(D, '_get_transposed_subscripts', None)
+    if f is not None:
+        try:
+            return f(s)
+        except Exception:  # noqa: BLE001
+            return None
+    l, r, _ = _split(s)
+    try:
+        t = D(jnp.ones(_shape(l)), S(*_shape(r)), s).T
+        return getattr(t, 'subscripts', '?')
+    except Exception:  # noqa: BLE001
+        return None
 
 
 def cases(tier, seed):
@@ -177,11 +188,7 @@ def run_case(key, twin=False):
     else:
         want = jax.tree.map(lambda xl: ein(b, xl), x, is_leaf=E.is_sym)
     res = [('mv', dec.decide(ctx, pairs(got, want, ctx)))]
-    transposed = None
-    try:
-        transposed = D._get_transposed_subscripts(s)
-    except Exception:  # noqa: BLE001  ("rejected with an error": any exception is a rejection)
-        pass
+    transposed = _transposed(D, s)    # None = rejected with an error (any exception)
     if transposed is not None:
         try:
             t0 = op0.T
